@@ -13,7 +13,7 @@ RULE = ('case = peptide model of length 1..12 (residue, terminal, static, isotop
         'ion types x charge list in [1,4] x isotope list in [0,3] x water/ammonia/custom losses with max_losses 1..3 x mono/avg x '
         'precision x return type; non-trivial = length >= 3, at least one modification and (>= 2 ion types or a loss or an isotope > 0)')
 ASSUMPTIONS = [
-    'custom loss patterns are single residues or character classes, so the number of hits is a residue count',
+    'custom loss patterns are single residues, character classes, or fixed-length patterns of 2-3 items (letter, any residue, class); hits are counted by an own scanner (non-overlapping, leftmost), no regex engine',
     'with a precision p a reported mass or m/z lies within half a unit of 10^-p of the unrounded value of the mass calculator (rounding the mass first and dividing afterwards, as the fragmenter did before fix, is up to 0.75 units off and is reported)',
 ]
 
@@ -33,11 +33,35 @@ def ref_spans(n, t):
     return [(i, j) for i in range(1, n) for j in range(i + 1, n)]
 
 
+def _hits(residues, spec):
+    """number of places a loss rule applies to.  spec = a set of letters (one hit per residue in the set), or 're:' followed by a
+    fixed-length pattern whose items are a letter, '.', or a class written [XY]: non-overlapping leftmost matches (own scanner)"""
+    if not spec.startswith('re:'):
+        return sum(1 for aa in residues if aa in spec)
+    items, pat, k = [], spec[3:], 0
+    while k < len(pat):
+        if pat[k] == '[':
+            e = pat.index(']', k)
+            items.append(set(pat[k + 1:e]))
+            k = e + 1
+        else:
+            items.append(None if pat[k] == '.' else {pat[k]})
+            k += 1
+    n, i, L = 0, 0, len(items)
+    while i + L <= len(residues):
+        if all(it is None or residues[i + j] in it for j, it in enumerate(items)):
+            n += 1
+            i += L
+        else:
+            i += 1
+    return n
+
+
 def ref_losses(residues, rules, max_losses):
-    """rules: list of (set of letters, loss).  distinct sums of up to max_losses applicable losses, 0 always"""
+    """rules: list of (spec, loss), see _hits.  distinct sums of up to max_losses applicable losses, 0 always"""
     pool = []
     for letters, loss in rules:
-        pool.extend([loss] * sum(1 for aa in residues if aa in letters))
+        pool.extend([loss] * _hits(residues, letters))
     out = {0.0}
     for k in range(1, max_losses + 1):
         for combo in itertools.combinations(pool, k):
@@ -73,7 +97,8 @@ def check_case(case) -> Result:
     if case['ammonia']:
         rules.append(('RKNQ', -17.02655))
     custom = [(c[0], c[1]) for c in case['custom']]
-    lib_custom = [((f'[{letters}]' if len(letters) > 1 else letters), loss) for letters, loss in custom]
+    lib_custom = [(letters[3:] if letters.startswith('re:') else (f'[{letters}]' if len(letters) > 1 else letters), loss)
+                  for letters, loss in custom]
     # library order: custom losses first, then water, then ammonia
     all_rules = custom + rules
     has_mod = bool(pep['internal'] or pep['nterm'] or pep['cterm'] or pep['static'] or pep['isotope'])
@@ -163,7 +188,7 @@ def check_case(case) -> Result:
         m0 = pt.mass(f.sequence, ion_type=f.ion_type, charge=0, isotope=f.isotope, loss=f.loss, monoisotopic=mono)
         # average mode: the property does not say whether a charge carrier is the CODATA proton or average hydrogen minus an
         # electron (the two calculators differ by 1.16e-4 per carrier when a label routes mass() through the composition path)
-        slack = 0.0 if mono else 1.2e-4 * (f.charge + 1)
+        slack = 0.0  # both numbers come from the library: fragmenter and mass calculator must agree on what a charge carrier weighs
         tolm = 1e-6 + slack + (unit / 2 if prec is not None else 0)
         bad = None
         if abs(f.mass - m) > tolm:
@@ -198,6 +223,10 @@ def check_case(case) -> Result:
                     sig = 'C04/projection/label-numbering-of-suffix-ions'
             r.fail('every return type is a projection of the same list', sig, index=k, got=str(out[k] if k is not None else len(out)),
                    expected=str(expv[k] if k is not None else len(expv)), **ctx)
+    if rt != 'fragment':
+        out_f = call(rt, via_fragmenter=True)
+        if out_f != call(rt):
+            r.fail('the cached Fragmenter gives the same list', 'C04/fragmenter-differs/projection', return_type=rt, **ctx)
     fr_out = call('fragment', via_fragmenter=True)
     a1 = [(f.ion_type, f.start, f.end, f.charge, f.isotope, f.loss, f.mass, f.mz, f.sequence) for f in fr_out]
     a2 = [(f.ion_type, f.start, f.end, f.charge, f.isotope, f.loss, f.mass, f.mz, f.sequence) for f in frags]
@@ -288,7 +317,11 @@ def strategy():
     pm = gen.pep_model(alphabet=gen.AA20 + 'UOJ', min_len=1, max_len=12, kinds=('internal', 'nterm', 'cterm', 'static', 'isotope', 'labile'),
                        mod_strategy=one, mod_list=st.lists(one, min_size=1, max_size=2), allow_empty=False, static_mod_text=st_text,
                        isotopes=['13C', '15N', '18O', 'D'])
-    letters = st.lists(st.sampled_from('STEDRKNQAGP'), min_size=1, max_size=3, unique=True).map(lambda x: ''.join(sorted(x)))
+    single = st.lists(st.sampled_from('STEDRKNQAGP'), min_size=1, max_size=3, unique=True).map(lambda x: ''.join(sorted(x)))
+    # patterns that span residues: two or three fixed items (letter, any residue, class)
+    item = st.one_of(st.sampled_from('STEDKPAG'), st.sampled_from('STEDKPAG'), st.just('.'), st.sampled_from(['[ST]', '[DE]', '[KR]', '[AG]']))
+    multi = st.lists(item, min_size=2, max_size=3).map(lambda xs: 're:' + ''.join(xs))
+    letters = st.one_of(single, single, multi)
     custom = st.lists(st.tuples(letters, st.sampled_from([-10.0, -5.0, -97.9769, -18.01056, 12.5])).map(list), max_size=2)
 
     @st.composite
